@@ -500,6 +500,46 @@ func runC07(p *core.Prog, r *core.Report, tier string) {
 				rel = negRelStr(rel)
 			}
 			r.Check(rel == ">" || rel == ">=", "C07.f", fmt.Sprintf("%s|score-comparison#%d", core.FnKey(f), nScore), p.Pos(ifi.Pos()), "the candidate is replaced only by a response with a greater (or equal) score", "the best candidate is replaced when the new score is '"+rel+"' the best score: the strategy does not keep the highest-scoring response")
+			// the running maximum moves with the candidate: the score compared against (a loop-carried variable) receives
+			// the challenger's score somewhere (otherwise later responses are compared with a stale score and a worse one
+			// replaces a better one)
+			bo, _ := stripNot(ifi.Cond).(*ssa.BinOp)
+			if bo != nil {
+				challenger, running := bo.X, bo.Y
+				if isScore(c.Y) && !isScore(c.X) {
+					challenger, running = bo.Y, bo.X
+				}
+				if phi, ok := running.(*ssa.Phi); ok {
+					fed := false
+					seenP := map[*ssa.Phi]bool{}
+					var walk func(ph *ssa.Phi)
+					walk = func(ph *ssa.Phi) {
+						if seenP[ph] || fed {
+							return
+						}
+						seenP[ph] = true
+						for _, e := range ph.Edges {
+							if sameExpr(e, challenger, 0) {
+								fed = true
+							}
+							if p2, ok := e.(*ssa.Phi); ok {
+								walk(p2)
+							}
+						}
+						// phis that merge this one (the join after the update, the next loop's header)
+						if ph.Referrers() != nil {
+							for _, ref := range *ph.Referrers() {
+								if p2, ok := ref.(*ssa.Phi); ok {
+									walk(p2)
+								}
+							}
+						}
+					}
+					walk(phi)
+					r.Check(fed, "C07.f", fmt.Sprintf("%s|score-comparison#%d|running-best-updated", core.FnKey(f), nScore), p.Pos(ifi.Pos()), "the score compared against is replaced by the winner's score",
+						"the score the responses are compared with is never replaced by this comparison's winning score: after a better response a worse one that arrives later still compares as greater and replaces it")
+				}
+			}
 		})
 	}
 	r.Floor("C07.f score comparisons in best strategies", nScore, 6)
@@ -563,6 +603,31 @@ func runC07(p *core.Prog, r *core.Report, tier string) {
 		}
 	}
 	r.Floor("C07.g majority strategies with a threshold", nThr, 1)
+
+	// (g') what is counted is the whole answer: the key under which majority responses are tallied is the hash tree
+	// root of the response's data (tallying by one field merges answers that differ elsewhere, and a value reported
+	// by fewer nodes than the threshold can then win)
+	nKey := 0
+	for _, f := range fns {
+		rel := core.RelPkg(f.Pkg.Pkg.Path())
+		if rel != "strategies/attestationdata/majority" {
+			continue
+		}
+		core.EachInstr(f, func(in ssa.Instruction) {
+			mu, ok := in.(*ssa.MapUpdate)
+			if !ok {
+				return
+			}
+			if _, isArr := mu.Key.Type().Underlying().(*types.Array); !isArr {
+				return
+			}
+			nKey++
+			kd := ds.D(mu.Key)
+			r.Check(kd.MentionsCall("HashTreeRoot"), "C07.g", fmt.Sprintf("%s|tally-key#%d", core.FnKey(f), nKey), p.Pos(mu.Pos()), "responses are tallied by the hash tree root of the attestation data",
+				"responses are tallied under "+kd.String()+", not under the root of the whole attestation data: responses that differ in the fields left out are counted as one")
+		})
+	}
+	r.Floor("C07.g tally updates in the majority attestation data strategy", nKey, 4)
 
 	// ---- (i) all providers are asked ----
 	nFan := 0
@@ -686,4 +751,49 @@ func calleesInPkg(f *ssa.Function) []*ssa.Function {
 		}
 	})
 	return out
+}
+
+func stripNot(v ssa.Value) ssa.Value {
+	for {
+		if u, ok := v.(*ssa.UnOp); ok && u.Op == token.NOT {
+			v = u.X
+			continue
+		}
+		return v
+	}
+}
+
+// sameExpr: a and b denote the same expression over the same SSA leaves (go/ssa has no CSE: two textual
+// occurrences of resp.score are two loads).
+func sameExpr(a, b ssa.Value, depth int) bool {
+	if a == b {
+		return true
+	}
+	if depth > 4 || a == nil || b == nil {
+		return false
+	}
+	switch x := a.(type) {
+	case *ssa.UnOp:
+		y, ok := b.(*ssa.UnOp)
+		return ok && x.Op == y.Op && sameExpr(x.X, y.X, depth+1)
+	case *ssa.FieldAddr:
+		y, ok := b.(*ssa.FieldAddr)
+		return ok && x.Field == y.Field && sameExpr(x.X, y.X, depth+1)
+	case *ssa.Field:
+		y, ok := b.(*ssa.Field)
+		return ok && x.Field == y.Field && sameExpr(x.X, y.X, depth+1)
+	case *ssa.Lookup:
+		y, ok := b.(*ssa.Lookup)
+		return ok && sameExpr(x.X, y.X, depth+1) && sameExpr(x.Index, y.Index, depth+1)
+	case *ssa.Convert:
+		y, ok := b.(*ssa.Convert)
+		return ok && sameExpr(x.X, y.X, depth+1)
+	case *ssa.ChangeType:
+		y, ok := b.(*ssa.ChangeType)
+		return ok && sameExpr(x.X, y.X, depth+1)
+	case *ssa.Extract:
+		y, ok := b.(*ssa.Extract)
+		return ok && x.Index == y.Index && sameExpr(x.Tuple, y.Tuple, depth+1)
+	}
+	return false
 }
